@@ -843,6 +843,10 @@ func (e *specEnv) evalCall(n *ast.CallExpr) (sval, error) {
 			return sval{v: scalar(a.v.Len), typ: types.Typ[types.Int]}, nil
 		}
 		if a.v.T.Sort == SStr {
+			if strings.Contains(a.v.T.S, "!q") {
+				// under a quantifier: no side facts about a term that mentions the bound variable
+				return sval{v: scalar(x.strLenRaw(a.v.T)), typ: types.Typ[types.Int]}, nil
+			}
 			return sval{v: scalar(x.strLen(e.s, a.v.T)), typ: types.Typ[types.Int]}, nil
 		}
 		if _, ok := a.typ.Underlying().(*types.Map); ok {
